@@ -303,7 +303,11 @@ func (fe *failEdge) classify(fn *ssa.Function, call *ssa.Call, direct bool, extr
 		for k := it.i; k < len(it.b.Instrs); k++ {
 			in := it.b.Instrs[k]
 			if in == ssa.Instruction(call) {
-				stop = true // retry: the operation is re-executed
+				// The operation is executed again without the earlier failure having been returned: its error value is
+				// overwritten (loop over items assigning the same variable). Legitimate reload-and-retry loops are
+				// recognised by the CAS-mismatch idiom above (that edge is blocked), so arriving here means the failure is dropped.
+				stop = true
+				bad, badWhy = in, "the operation is executed again (next loop iteration) before the failure is returned: the error is overwritten"
 				break
 			}
 			if _, ok := in.(*ssa.Panic); ok {
